@@ -221,7 +221,8 @@ fn corrupt(cx: &mut Cx, holder: NodeId, key: Arc<KeyMat>, issued: Arc<Cred>, sin
     { let mut d = (*issued).clone(); d.s += Integer::from(&d.e); send(cx, d, "sig_field:s+e".into()); }
     // other bases / other key
     { let mut d = (*issued).clone(); d.bases = key.bases2.0[..n].to_vec(); send(cx, d, "misroute_bases".into()); }
-    { let mut d = (*issued).clone(); d.bases.rotate_left(1); if n > 1 { send(cx, d, "bases_rotated".into()); } }
+    // (rotating the bases under a constant attribute vector leaves prod a_i^m_i unchanged: same statement)
+    { let mut d = (*issued).clone(); d.bases.rotate_left(1); if n > 1 && issued.msgs.iter().any(|m| *m != issued.msgs[0]) { send(cx, d, "bases_rotated".into()); } }
     if let Some(other) = other_pool_key(key.idx) { let mut d = (*issued).clone(); d.pk = other.pk.clone(); send(cx, d, "misroute_key".into()); }
     { let mut d = (*issued).clone(); std::mem::swap(&mut d.pk.b, &mut d.pk.c); send(cx, d, "pk_b<->c".into()); }
     // Mallory: from a valid signature, without the secret key: (v * a_i^k, m_i + k*e)
